@@ -171,11 +171,65 @@ NOT_YET = {
 
 ALL = ["C%02d" % i for i in range(1, 21)]
 
+# Third session (DESIGN section 13): what was added to the checks. text: appended to the claim; note: (old, new) replacements
+# in the note, or a string appended to it; technique: replaces the technique.
+ADDENDA = {
+    "C01": dict(text=" The scripted targets also send atomic containers and the replace idiom; library and CLI queries carry overlapping subscription paths."),
+    "C04": dict(text=" Further profiles: 'idle' (send timeout 1.5 s, silences of 2 s between the phases: an idle subscriber is not a stalled one), 'stall' (backlogs behind a slow subscriber), "
+                     "removed targets that come back, and a held-back removal aimed at the registration window of a starting stream (hook stream.register)."),
+    "C05": dict(text=" An 'idle' profile adds POLL/STREAM subscribers that stay silent for longer than the send timeout between triggers."),
+    "C06": dict(text=" The 'remove' profile (streams that lose the race with the removal of their target, targets that come back) checks that nothing registered for a refused or ended stream is offered anything later."),
+    "C07": dict(text=" Also: subscriptions to a target the cache does not know (refused as unauthenticated first, if the caller is), and an 'idle' profile with an ACL in which the last thing a sender handled "
+                     "before a silence longer than the send timeout may be a denied target's notification (the stream must survive)."),
+    "C09": dict(text=" Walk/WalkSorted hand their visitor path slices that the driver keeps until the walk has returned (as client.Leaves and the CLI do); paths up to length 5."),
+    "C10": dict(text=" The lock protocol itself is specified in CTreeLocks.tla (one RWMutex per node with Go's writer preference, hand-over-hand descent keeping the ancestors' read locks, reader->writer exchange "
+                     "with re-check, deletes under the root write lock that lock every node they inspect, leaf-handle operations) and model-checked for every interleaving of 2-4 operations: the reachable content "
+                     "refines the abstract path map whenever no delete is in flight, no conflicting unsynchronised access, no deadlock, termination; five mutants of the protocol must each be refuted. Besides the "
+                     "long random histories, 150 000 'duels' (2-3 goroutines released together on conflicting short paths incl. the empty path) are run and their distinct outcomes validated.",
+                note=[("The lock-level model CTreeLocks.tla of the design is not built yet: the locking protocol is bound to the code through the race detector and the watchdog only.",
+                       "CTreeLocks.tla is a design-level model: it shares its abstract meaning with CTree.tla (what the recorded histories are held to) and its exchange window is the add.upgrade hook, "
+                       "but its behaviours are not replayed on the code.")],
+                technique="TLA+ lock-level model (CTreeLocks.tla: refinement of the abstract map, race and deadlock freedom, 5 mutants) exhaustive TLC; linearizability-style trace validation with TLC "
+                          "(CTreeLin.tla over CTree.tla) of recorded histories and duels + Go race detector as run-time monitor"),
+    "C11": dict(text=" In addition EVERY schedule of a set of small programs (1-2 producers, a consumer, a closer) is executed on the real queue under a gate scheduler that parks each goroutine before every "
+                     "call and at the three hook points and lets exactly one run at a time (stateless depth-first search, about 11 000 schedules in the quick tier), each run validated by CoalesceLin.",
+                note=" The small programs are enumerated exhaustively at the granularity of the gates (the steps of CoalesceChan.tla); a goroutine released from the next.empty gate that has not come back within "
+                     "2 ms is taken to be blocked in Next's select.",
+                technique="TLA+ specs (Coalesce, CoalesceChan incl. liveness + mutants) exhaustive TLC; trace validation of sequential runs and linearizability-style validation of concurrent histories "
+                          "(CoalesceLin), incl. bounded exhaustive schedule enumeration on the real queue (gate scheduler)"),
+    "C12": dict(text=" Every notification vector is followed by a full query and a later wildcard delete (the delete notifications are built from whatever the vector stored); every subscribe-request vector "
+                     "is run against a server with and without statistics."),
+    "C13": dict(text=" Manager.tla now has incarnations (Add of the same name after or, for the mutant, during a Remove; invariant OneLife; 4 mutants). The driver has a second controller goroutine racing Add "
+                     "against Remove, slow callbacks, and per-target receive-timeout overrides (with and without a manager-wide default); ManagerTrace accepts concurrent calls, infers where the old "
+                     "incarnation ends and the new begins, requires a silent session to be replaced when a timeout is in force and a cause (stream ended by the target, Reconnect/Remove) for every Reset when none is."),
+    "C15": dict(text=" Cache-level latency stage: a cache created with latency windows under a manual clock; after every periodic refresh the exported meta/latency/window/<w>/{avg,max,min} leaves are read "
+                     "back and must lie between the extremes of the latencies of the target's own post-sync updates (CacheLatTrace.tla).",
+                technique="TLA+ specs (Cache counters: CacheMC CountersInv/LatestInv; Latency.tla Bounded/Window with mutants) exhaustive TLC + trace validation on real cache.Cache (CacheTrace, CacheLatTrace), "
+                          "latency.Latency (LatencyTrace) and concurrent executions under the race detector (CacheConcTrace)"),
+    "C16": dict(text=" Requests naming a dialer the manager does not have are generated (a dial that fails at once); ConnectionTrace tracks the identity of the last failed dial so that a failed entry "
+                     "that lingers is rejected; Connection.tla has a third mutant (bad_dialer_lingers)."),
+    "C17": dict(text=" Request names may coincide with target names (independent key spaces)."),
+    "C18": dict(text=" Attempts may fail with errors that wrap context.Canceled/DeadlineExceeded while the client's context is alive, and ReconnectTrace requires that Subscribe does not return before Close "
+                     "has been called (keeps resubscribing); the real-Impl scenarios include unreachable targets (silent listener, refused port) with a 30 s connection timeout, during which Close must return promptly."),
+    "C20": dict(text=" String-list (leaf-list) values - random sub-lists or rotating options - are generated and specified. Second stage: the repository's own fake gNMI agent (testing/fake/gnmi agent.go/client.go, "
+                     "which builds the queue and injects the sync marker itself) streams further configurations over gRPC, twice each, and the responses read off the wire are validated by the same specification.",
+                note=[("string-list values and FixedQueue are not covered", "the FixedQueue is not covered; the agent stage uses STREAM subscriptions without delays")]),
+}
+
 
 def main():
     checks = []
     for pid in sorted(CHECKS):
-        c = CHECKS[pid]
+        c = dict(CHECKS[pid])
+        a = ADDENDA.get(pid, {})
+        c["text"] = c["text"] + a.get("text", "")
+        if isinstance(a.get("note"), list):
+            for o, n in a["note"]:
+                assert o in c["note"], (pid, o)
+                c["note"] = c["note"].replace(o, n)
+        elif a.get("note"):
+            c["note"] = c["note"] + a["note"]
+        c["technique"] = a.get("technique", c["technique"])
         checks.append(dict(
             property_id=pid,
             quick_cmd="./check %s --tier quick" % pid,
